@@ -144,16 +144,19 @@ Definition enum_check_fixed := enum_check_with seen_eqb_fixed. (* with the D12 r
 
 (* ---- lifted to a device: pre-order over objects, all field sets, first non-ok verdict ---- *)
 
-Record site := { s_obj : string; s_field : field; s_enum : enum_def; s_try : bool }.
+(* s_cfgs: the cfg of the object and of the field — what propagate_cfg combines into the generated enum's own
+   cfg (the cfgs of enclosing blocks are combined in as well; that walk is C18's model and is not repeated
+   here, so the cfg-aware part below is exact for objects outside cfg-gated blocks) *)
+Record site := { s_obj : string; s_field : field; s_enum : enum_def; s_try : bool; s_cfgs : list cfg }.
 
-Definition field_site (obj : string) (f : field) : list site :=
+Definition field_site (obj : string) (ocfg : cfg) (f : field) : list site :=
   match f_conv f with
-  | Some (ConvEnum e t) => [{| s_obj := obj; s_field := f; s_enum := e; s_try := t |}]
+  | Some (ConvEnum e t) => [{| s_obj := obj; s_field := f; s_enum := e; s_try := t; s_cfgs := [ocfg; f_cfg f] |}]
   | _ => []
   end.
 
 Definition object_sites (o : object) : list site :=
-  flat_map (field_site (object_name o)) (List.concat (object_field_sets o)).
+  flat_map (field_site (object_name o) (object_cfg o)) (List.concat (object_field_sets o)).
 
 Definition enum_sites (d : device) : list site := flat_map object_sites (preorder_objects (d_objects d)).
 
@@ -350,6 +353,24 @@ Definition getter_with (enums : list (enum_def * base_type * Z)) (emitted : list
 
 Definition getter (d : device) (f : field) (p : Z) : outcome getter_value :=
   getter_with (collect_enums d) (emitted_enums d) f p.
+
+(* ---- cfg: which generated enums exist in a given build ---- *)
+
+(* a build decides every #[cfg(...)] predicate (they are opaque strings here) *)
+Definition cfg_env : Type := string -> bool.
+Definition cfg_on (env : cfg_env) (c : cfg) : bool := match c with None => true | Some s => env s end.
+Definition site_on (env : cfg_env) (s : site) : bool := forallb (cfg_on env) (s_cfgs s).
+
+(* the enum items present in the build.  The conversion-method choice stays cfg-blind, as in the code:
+   `enum_list.find(|e| e.name == ...)` looks at names only. *)
+Definition emitted_enums_env (env : cfg_env) (d : device) : list eenum :=
+  map (fun s => transform_enum (styled s) (f_base (s_field s)) (s_width s)) (filter (site_on env) (enum_sites d)).
+
+Definition getter_env (env : cfg_env) (d : device) (f : field) (p : Z) : outcome getter_value :=
+  getter_with (collect_enums d) (emitted_enums_env env d) f p.
+
+Definition cfg_free (d : device) : Prop :=
+  forall s, In s (enum_sites d) -> forall c, In c (s_cfgs s) -> c = None.
 
 (* ------------------------------------------------------------------ *)
 (* Specification, written from the text of C15                          *)
@@ -550,6 +571,22 @@ Definition c07_enum_line (t : enum_def * base_type * Z) : string :=
                                            end) ++
     " | default=" ++ match enum_default ee with Some x => show_token (token_of_value (-1) x) | None => "-" end ++
     " | " ++ show_roundtrip ee
+  end.
+
+(* the getter tables in the build where exactly the cfg predicates in [on] hold *)
+Definition c07_env_result (on : list string) (d : device) : string :=
+  let env := fun c => existsb (String.eqb c) on in
+  match enum_values_check d with
+  | VOk =>
+    let enums := collect_enums d in
+    let emitted := emitted_enums_env env d in
+    String.concat (String (ascii_of_nat 10) "")
+      (flat_map (fun o => if cfg_on env (object_cfg o)
+                          then flat_map (fun f => if cfg_on env (f_cfg f) then c07_field_line enums emitted (object_name o) f else [])
+                                        (List.concat (object_field_sets o))
+                          else [])
+                (preorder_objects (d_objects d)))
+  | v => show_verdict v
   end.
 
 Definition c07_result (d : device) : string :=
